@@ -12,6 +12,34 @@ thread_local! {
     static BUSY: Cell<bool> = const { Cell::new(false) };
 }
 
+thread_local! {
+    /// Injected heap exhaustion: the next allocation of exactly this (size, align) on this thread fails.
+    static FAIL_NEXT: Cell<Option<(usize, usize)>> = const { Cell::new(None) };
+}
+
+/// Make the next allocation of exactly `size` bytes with alignment `align` on this thread return
+/// null (once). Returns nothing; use `fail_pending` to see whether it was consumed.
+pub fn fail_next(size: usize, align: usize) {
+    let _ = FAIL_NEXT.try_with(|f| f.set(Some((size, align))));
+}
+
+/// Clears the injection; returns true if it had not been consumed.
+pub fn fail_clear() -> bool {
+    FAIL_NEXT.try_with(|f| f.take().is_some()).unwrap_or(false)
+}
+
+fn injected_failure(layout: &Layout) -> bool {
+    FAIL_NEXT
+        .try_with(|f| match f.get() {
+            Some((s, a)) if s == layout.size() && a == layout.align() => {
+                f.set(None);
+                true
+            }
+            _ => false,
+        })
+        .unwrap_or(false)
+}
+
 pub fn set_active(on: bool) {
     let _ = ACTIVE.try_with(|a| a.set(on));
 }
@@ -56,9 +84,15 @@ fn check(ptr: *mut u8, size: usize) {
 
 unsafe impl GlobalAlloc for Guard {
     unsafe fn alloc(&self, layout: Layout) -> *mut u8 {
+        if injected_failure(&layout) {
+            return std::ptr::null_mut();
+        }
         unsafe { System.alloc(layout) }
     }
     unsafe fn alloc_zeroed(&self, layout: Layout) -> *mut u8 {
+        if injected_failure(&layout) {
+            return std::ptr::null_mut();
+        }
         unsafe { System.alloc_zeroed(layout) }
     }
     unsafe fn dealloc(&self, ptr: *mut u8, layout: Layout) {
